@@ -132,11 +132,70 @@ func genMainOpts(repo, outDir string) {
 		}
 		rrows = append(rrows, "("+leanStr(k)+", "+leanStr(reads[k][0])+", "+leanStr(reads[k][1])+", "+once+")")
 	}
+	// the chain of constructor calls below app.New: which argument goes to which parameter
+	paramNames := func(fd *ast.FuncDecl) []string {
+		var ps []string
+		for _, p := range fd.Type.Params.List {
+			for _, n := range p.Names {
+				ps = append(ps, n.Name)
+			}
+		}
+		return ps
+	}
+	type hop struct{ callerFile, caller, calleeFile, callee, callText string }
+	hops := []hop{
+		{"app/runner.go", "New", "transport/manager/manager.go", "New", "manager.New"},
+		{"transport/manager/manager.go", "New", "transport/factory/factory.go", "NewTransport", "factory.NewTransport"},
+		{"transport/factory/factory.go", "NewTransport", "transport/batcher/batcher.go", "NewBatcher", "batcher.NewBatcher"},
+	}
+	var prows []string
+	for _, h := range hops {
+		cf := findFunc(parseFile(filepath.Join(repo, h.callerFile)), h.caller, "")
+		ce := findFunc(parseFile(filepath.Join(repo, h.calleeFile)), h.callee, "")
+		if cf == nil || ce == nil {
+			die("main opts: %s / %s not found", h.caller, h.callee)
+		}
+		ps := paramNames(ce)
+		found := false
+		reassigned := map[string]bool{}
+		ast.Inspect(cf.Body, func(n ast.Node) bool {
+			if as, ok := n.(*ast.AssignStmt); ok && as.Tok == token.ASSIGN {
+				for _, l := range as.Lhs {
+					if id, ok := l.(*ast.Ident); ok {
+						reassigned[id.Name] = true
+					}
+				}
+			}
+			return true
+		})
+		ast.Inspect(cf.Body, func(n ast.Node) bool {
+			c, ok := n.(*ast.CallExpr)
+			if !ok || squash(src(c.Fun)) != h.callText || found {
+				return true
+			}
+			found = true
+			if len(c.Args) != len(ps) {
+				die("main opts: %s is called with %d arguments, it has %d parameters", h.callText, len(c.Args), len(ps))
+			}
+			for i, a := range c.Args {
+				arg := squash(src(a))
+				if reassigned[arg] {
+					arg = "reassigned:" + arg
+				}
+				prows = append(prows, "("+leanStr(h.callText)+", "+leanStr(ps[i])+", "+leanStr(arg)+")")
+			}
+			return true
+		})
+		if !found {
+			die("main opts: call of %s not found in %s", h.callText, h.callerFile)
+		}
+	}
 	var b strings.Builder
 	b.WriteString("/-! GENERATED by tools/factgen from main/main.go (replicateAction) and app/runner.go (New). Do not edit. -/\n")
 	b.WriteString("namespace PgBifrost.Gen.MainOpts\n\n/-- (config map, slot, where the value comes from: the option read, `conv∘option`, or `computed:<expr>`) -/\n")
 	b.WriteString("def slots : List (String × String × String) := [\n  " + strings.Join(rows, ",\n  ") + "\n]\n\n")
 	b.WriteString("/-- app.New: (local, map, slot, assigned exactly once) -/\ndef reads : List (String × String × String × Bool) := [\n  " + strings.Join(rrows, ",\n  ") + "\n]\n\n")
+	b.WriteString("/-- below app.New: (call, parameter of the callee, argument as written; `reassigned:` if the caller assigns to it) -/\ndef passes : List (String × String × String) := [\n  " + strings.Join(prows, ",\n  ") + "\n]\n\n")
 	b.WriteString("end PgBifrost.Gen.MainOpts\n")
 	os.WriteFile(filepath.Join(outDir, "MainOpts.lean"), []byte(b.String()), 0o644)
 }
